@@ -285,7 +285,9 @@ def address_reuse_sweep(chk: Check, n_pairs: int) -> None:
         if a in small:
             pairs.append((a, rng.choice(ctx.twins[a])))
     rng.shuffle(pairs)
-    pairs = pairs[: n_pairs // 2]
+    # revisions that differ in a constant group index first (x### twins), then other twins
+    pairs = sorted(pairs, key=lambda ab: 0 if (ab[0][0] == "x" or ab[1][0] == "x") and ab[0][0] != "x" else 1)
+    pairs = pairs[: (n_pairs * 3) // 4]
     while len(pairs) < n_pairs and len(gt) >= 2:
         a, b = rng.sample(gt, 2)
         pairs.append((a, b))
@@ -293,17 +295,25 @@ def address_reuse_sweep(chk: Check, n_pairs: int) -> None:
     idx = 0
     dets = list(ctx.detectors)
     for a, b in pairs:
-        for reps, collect in ((1, True), (2, True), (2, False)):
-            ops: List[Dict[str, Any]] = []
-            for _ in range(reps):
-                ops.append({"op": "single", "c": a, "dets": dets, "runs": None, "s1": "id", "uid": len(ops)})
-                if collect:
-                    ops.append({"op": "gc", "uid": len(ops)})
+        # stale entries accumulate over the rounds, so many rounds in one interpreter are worth more
+        # than many interpreters; most for the revisions that differ in a constant group index
+        if a[0] == "x" or b[0] == "x":
+            rounds = 16 if chk.tier == "quick" else 48
+        else:
+            rounds = 5 if chk.tier == "quick" else 16
+        # whether B's objects land on A's old addresses depends on the state of the allocator, so one
+        # session goes through many rounds of [A, collect, B, collect]; every B (and A) is compared
+        ops: List[Dict[str, Any]] = []
+        for r in range(rounds):
+            ops.append({"op": "single", "c": a, "dets": dets, "runs": None, "s1": "id", "uid": len(ops)})
+            if r % 3 != 2:
+                ops.append({"op": "gc", "uid": len(ops)})
+            if r % 4 == 3:
+                ops.append({"op": "noise", "n": rng.choice([10, 100, 1000]), "seed": rng.randrange(2**31), "uid": len(ops)})
             ops.append({"op": "single", "c": b, "dets": dets, "runs": None, "s1": "id", "uid": len(ops)})
             ops.append({"op": "gc", "uid": len(ops)})
-            ops.append({"op": "single", "c": a, "dets": dets, "runs": None, "s1": "id", "uid": len(ops)})
-            specs.append({"ops": ops, "hashseed": rng.choice(ctx.hashseeds), "index": 6000000 + idx})
-            idx += 1
+        specs.append({"ops": ops, "hashseed": rng.choice(ctx.hashseeds), "index": 6000000 + idx})
+        idx += 1
     t0 = time.time()
     before = chk.stats["compared_ops"]
     for i in range(0, len(specs), 128):
